@@ -468,6 +468,12 @@ func (r *Runner) Globals() (map[string]lang.Value, error) {
 
 // Quick runs script once on obj with a safety deadline.
 func Quick(script string, obj interface{}, vars map[string]lang.Value, noOpt bool) Result {
+	return QuickAfter(script, obj, vars, noOpt, nil)
+}
+
+// QuickAfter is Quick with something done to the prepared evaluator (earlier
+// runs) before the run that is reported.
+func QuickAfter(script string, obj interface{}, vars map[string]lang.Value, noOpt bool, before func(*Runner)) Result {
 	r := NewRunner(script)
 	ctx, cancel := context.WithTimeout(context.Background(), 20*time.Second)
 	defer cancel()
@@ -486,6 +492,9 @@ func Quick(script string, obj interface{}, vars map[string]lang.Value, noOpt boo
 	}
 	if err != nil {
 		return Result{PrepareErr: err}
+	}
+	if before != nil {
+		before(r)
 	}
 	return r.Execute(obj)
 }
